@@ -30,6 +30,7 @@ impl std::fmt::Display for Death {
                 }
             ),
             Death::Timeout(s) => write!(f, "the execution did not finish within {s} s of CPU time (or 4x that + 10 s of wall-clock time): endless loop or deadlock without a yield point in it"),
+            Death::Exit(86) => write!(f, "deadlock: every task still in flight is blocked (asleep in the kernel for 3 s) and nothing else can run"),
             Death::Exit(c) => write!(f, "the process exited with status {c}"),
             Death::Io(e) => write!(f, "fork/pipe error: {e}"),
         }
@@ -192,8 +193,48 @@ unsafe fn read_exact(fd: i32, b: &mut [u8]) -> bool {
     true
 }
 
+/// Result of waiting for a forked execution: (kind, value) with kind 0 = finished normally,
+/// 1 = killed by signal `value`, 2 = CPU or wall-clock limit (`value` s), 3 = exit status `value`.
+unsafe fn reap(pid: i32, timed_out: bool, timeout_s: u64) -> (u8, i64) {
+    if timed_out {
+        libc::kill(pid, libc::SIGKILL);
+    }
+    let mut status = 0i32;
+    loop {
+        let r = libc::waitpid(pid, &mut status, 0);
+        if r == pid {
+            break;
+        }
+        if r < 0 && *libc::__errno_location() != libc::EINTR {
+            return (4, 0);
+        }
+    }
+    if timed_out {
+        return (2, timeout_s as i64);
+    }
+    if libc::WIFSIGNALED(status) {
+        let sig = libc::WTERMSIG(status);
+        if sig == libc::SIGXCPU || sig == libc::SIGKILL {
+            return (2, timeout_s as i64);
+        }
+        return (1, sig as i64);
+    }
+    let code = libc::WEXITSTATUS(status);
+    if code != 0 {
+        return (3, code as i64);
+    }
+    (0, 0)
+}
+
 impl ForkServer {
     /// Must be called while this process is still small and single-threaded.
+    ///
+    /// The server never touches the heap after this point (the request lives in an anonymous
+    /// mapping that is unmapped again, output is relayed through a stack buffer), so every
+    /// execution is forked from the *same* memory image whatever was executed before; together
+    /// with address-space randomisation switched off (main.rs) this makes heap placement inside
+    /// an execution a function of the request alone, and a replay in another process exact even
+    /// for code that looks at addresses.
     pub fn start(handler: fn(&[u8]) -> Vec<u8>) -> ForkServer {
         unsafe {
             let mut a = [0i32; 2]; // parent -> server
@@ -206,6 +247,7 @@ impl ForkServer {
                 libc::close(b[0]);
                 // die with the parent
                 libc::prctl(libc::PR_SET_PDEATHSIG, libc::SIGKILL);
+                let mut buf = [0u8; 65536];
                 loop {
                     let mut hdr = [0u8; 16];
                     if !read_exact(a[0], &mut hdr) {
@@ -213,22 +255,87 @@ impl ForkServer {
                     }
                     let len = u64::from_le_bytes(hdr[0..8].try_into().unwrap()) as usize;
                     let timeout_ms = u64::from_le_bytes(hdr[8..16].try_into().unwrap());
-                    let mut req = vec![0u8; len];
-                    if !read_exact(a[0], &mut req) {
+                    let map_len = len.max(1);
+                    let p = libc::mmap(std::ptr::null_mut(), map_len, libc::PROT_READ | libc::PROT_WRITE, libc::MAP_PRIVATE | libc::MAP_ANONYMOUS, -1, 0);
+                    if p == libc::MAP_FAILED {
                         libc::_exit(0);
                     }
-                    let (tag, payload): (u8, Vec<u8>) = match run(|| handler(&req), Duration::from_millis(timeout_ms)) {
-                        Ok(bytes) => (0, bytes),
-                        Err(Death::Signal(s)) => (1, (s as i64).to_le_bytes().to_vec()),
-                        Err(Death::Timeout(s)) => (2, (s as i64).to_le_bytes().to_vec()),
-                        Err(Death::Exit(c)) => (3, (c as i64).to_le_bytes().to_vec()),
-                        Err(Death::Io(e)) => (4, e.into_bytes()),
-                    };
-                    let mut out = Vec::with_capacity(payload.len() + 9);
-                    out.push(tag);
-                    out.extend_from_slice(&(payload.len() as u64).to_le_bytes());
-                    out.extend_from_slice(&payload);
-                    if !write_all(b[1], &out) {
+                    if !read_exact(a[0], std::slice::from_raw_parts_mut(p as *mut u8, len)) {
+                        libc::_exit(0);
+                    }
+                    let timeout = Duration::from_millis(timeout_ms);
+                    let cpu_secs = timeout.as_secs().max(1);
+                    let wall = timeout * 4 + Duration::from_secs(10);
+                    let mut fds = [0i32; 2];
+                    let mut status: (u8, i64) = (4, 0);
+                    if libc::pipe(fds.as_mut_ptr()) == 0 {
+                        let pid = libc::fork();
+                        if pid == 0 {
+                            // ---- the execution
+                            libc::close(fds[0]);
+                            libc::close(a[0]);
+                            libc::close(b[1]);
+                            let lim = libc::rlimit { rlim_cur: cpu_secs as libc::rlim_t, rlim_max: (cpu_secs + 2) as libc::rlim_t };
+                            libc::setrlimit(libc::RLIMIT_CPU, &lim);
+                            let req = std::slice::from_raw_parts(p as *const u8, len);
+                            let bytes = match std::panic::catch_unwind(|| handler(req)) {
+                                Ok(b) => b,
+                                Err(_) => libc::_exit(4),
+                            };
+                            if !write_all(fds[1], &bytes) {
+                                libc::_exit(3);
+                            }
+                            libc::_exit(0);
+                        }
+                        libc::munmap(p, map_len);
+                        libc::close(fds[1]);
+                        if pid > 0 {
+                            let t0 = Instant::now();
+                            let mut timed_out = false;
+                            loop {
+                                let left = wall.saturating_sub(t0.elapsed());
+                                if left.is_zero() {
+                                    timed_out = true;
+                                    break;
+                                }
+                                let mut pfd = libc::pollfd { fd: fds[0], events: libc::POLLIN, revents: 0 };
+                                let r = libc::poll(&mut pfd, 1, left.as_millis().min(1000) as i32);
+                                if r < 0 {
+                                    if *libc::__errno_location() == libc::EINTR {
+                                        continue;
+                                    }
+                                    break;
+                                }
+                                if r == 0 {
+                                    continue;
+                                }
+                                let n = libc::read(fds[0], buf.as_mut_ptr() as *mut libc::c_void, buf.len());
+                                if n < 0 {
+                                    if *libc::__errno_location() == libc::EINTR {
+                                        continue;
+                                    }
+                                    break;
+                                }
+                                if n == 0 {
+                                    break;
+                                }
+                                let mut fh = [0u8; 5];
+                                fh[1..5].copy_from_slice(&(n as u32).to_le_bytes());
+                                if !write_all(b[1], &fh) || !write_all(b[1], &buf[..n as usize]) {
+                                    libc::_exit(0);
+                                }
+                            }
+                            status = reap(pid, timed_out, timeout.as_secs());
+                        }
+                        libc::close(fds[0]);
+                    } else {
+                        libc::munmap(p, map_len);
+                    }
+                    let mut fin = [0u8; 10];
+                    fin[0] = 1;
+                    fin[1] = status.0;
+                    fin[2..10].copy_from_slice(&status.1.to_le_bytes());
+                    if !write_all(b[1], &fin) {
                         libc::_exit(0);
                     }
                 }
@@ -248,22 +355,37 @@ impl ForkServer {
             if !write_all(self.to, &msg) {
                 return Err(Death::Io("fork server gone (write)".into()));
             }
-            let mut hdr = [0u8; 9];
-            if !read_exact(self.from, &mut hdr) {
-                return Err(Death::Io("fork server gone (read)".into()));
-            }
-            let len = u64::from_le_bytes(hdr[1..9].try_into().unwrap()) as usize;
-            let mut payload = vec![0u8; len];
-            if !read_exact(self.from, &mut payload) {
-                return Err(Death::Io("fork server gone (payload)".into()));
-            }
-            let num = || i64::from_le_bytes(payload[0..8].try_into().unwrap());
-            match hdr[0] {
-                0 => Ok(payload),
-                1 => Err(Death::Signal(num() as i32)),
-                2 => Err(Death::Timeout(num() as u64)),
-                3 => Err(Death::Exit(num() as i32)),
-                _ => Err(Death::Io(String::from_utf8_lossy(&payload).to_string())),
+            let mut payload: Vec<u8> = Vec::new();
+            loop {
+                let mut tag = [0u8; 1];
+                if !read_exact(self.from, &mut tag) {
+                    return Err(Death::Io("fork server gone (read)".into()));
+                }
+                if tag[0] == 0 {
+                    let mut n = [0u8; 4];
+                    if !read_exact(self.from, &mut n) {
+                        return Err(Death::Io("fork server gone (frame)".into()));
+                    }
+                    let n = u32::from_le_bytes(n) as usize;
+                    let at = payload.len();
+                    payload.resize(at + n, 0);
+                    if !read_exact(self.from, &mut payload[at..]) {
+                        return Err(Death::Io("fork server gone (payload)".into()));
+                    }
+                } else {
+                    let mut fin = [0u8; 9];
+                    if !read_exact(self.from, &mut fin) {
+                        return Err(Death::Io("fork server gone (status)".into()));
+                    }
+                    let v = i64::from_le_bytes(fin[1..9].try_into().unwrap());
+                    return match fin[0] {
+                        0 => Ok(payload),
+                        1 => Err(Death::Signal(v as i32)),
+                        2 => Err(Death::Timeout(v as u64)),
+                        3 => Err(Death::Exit(v as i32)),
+                        _ => Err(Death::Io("fork/pipe failed in the fork server".into())),
+                    };
+                }
             }
         }
     }
